@@ -58,7 +58,7 @@ class ClosureMonitor(Monitor):
         st = self.run.state(mid, j)
         winners = sum(1 for rs in st["r"].values() if rs["st"] == "WINNER")
         for o in market.blotter:
-            rs = st["r"][str(o.selection_id)]
+            rs = st["r"][self.run.rkey(o)]
             exp_dh = 1 if mk["winners"] == 0 else (winners if winners > mk["winners"] else None)
             got = (o.runner_status, o.market_type, o.each_way_divisor, o.number_of_dead_heat_winners)
             want = (rs["st"], mk["market_type"], mk.get("ew_divisor"), exp_dh)
